@@ -121,7 +121,7 @@ func (s *Suite) FullNameWithSeparator() string {
 	if s.Parent == nil {
 		return s.Name
 	}
-	parentFullName := s.Parent.FullName()
+	parentFullName := s.Parent.FullNameWithSeparator()
 	if parentFullName == "" {
 		return s.Name
 	}
